@@ -145,6 +145,18 @@ func (c16) Gen(tier string, seed int64, emit func([]Ev)) {
 			}
 		}
 	}
+	// readers handed over after the caller consumed a prefix (a header inside the prefix does not count any more)
+	for k := 0; k < 60; k++ {
+		pre := 1 + r.Intn(12)
+		st := rndBytes(r, pre)
+		if k%2 == 0 {
+			copy(st, []byte{0x47, 0x01, 0x00, 0x10}) // a plausible header at the very start, consumed
+		}
+		st = append(st, rndBytes(r, r.Intn(8))...)
+		st = append(st, 0x47, byte(r.Intn(32)), byte(0x10+r.Intn(200)), 0x10|byte(r.Intn(16)))
+		st = append(st, rndBytes(r, 4+r.Intn(190))...)
+		emit([]Ev{{"op": "sync", "stream": B(st), "reader": c16Readers[k%len(c16Readers)], "skipn": pre}})
+	}
 	// random long streams dense in false sync bytes, headers cut by EOF, reserved PIDs
 	for i := 0; i < nrand; i++ {
 		ln := r.Intn(60)
@@ -355,6 +367,11 @@ func (c16) Exec(h []Ev) []Ev {
 			}
 			sp := &slicePeeker{b: s}
 			rd, rest = sp, sp
+		}
+		e["skipn"] = GI0(e["skipn"])
+		if k := GI0(e["skipn"]); k > 0 && GS(e["op"]) == "sync" {
+			// the caller consumed the first k bytes before it handed the reader over: offsets count from where it stands
+			io.CopyN(io.Discard, rest, int64(k))
 		}
 		if GS(e["op"]) == "issynced" {
 			e["panic"] = guard(func() {
